@@ -430,15 +430,56 @@ def dot_row_lemmas(vc, rec, G, j0, row_x, bf, m, D):
         Z = z3.And([row_x(c) == 0 for c in range(mc)] + [z3.BoolVal(True)])
         vc.cut('a zero row of regressors contributes nothing', z3.Implies(z3.And(G, Z), D(mc) == 0))
         return Z
+    prod = lambda c: row_x(c) * bf(c)
     vc.cut('row j of the product array is X(r,c) * coef_(c), r = the j-th selected row',
-           z3.Implies(G, z3.And(arr.shape[1] == m, forall_range(0, m, lambda c: arr.at(j0, c) == row_x(c) * bf(c), 'c'))))
-    vc.assume(z3.Implies(G, use(stmt_sum_ext(m, lambda c: arr.at(j0, c), lambda c: row_x(c) * bf(c), lambda c: ps(j0, c), D))))
+           z3.Implies(G, z3.And(arr.shape[1] == m, forall_range(0, m, lambda c: arr.at(j0, c) == prod(c), 'c'))))
+    vc.cut('the library sums row j of the product array from the left', z3.Implies(G, prefix_def(lambda c: ps(j0, c), m, lambda c: arr.at(j0, c))))
+    vc.cut('the definitional sum along row r', z3.Implies(G, prefix_def(D, m, prod)))
+    vc.cut('0 <= m', m >= 0)
+    vc.assume(z3.Implies(G, use(stmt_sum_ext(m, lambda c: arr.at(j0, c), prod, lambda c: ps(j0, c), D))))        # LemmaSumExt
     vc.cut('dot(X[finite], coef_)[j] = sum_c X(r,c) * coef_(c)', z3.Implies(G, res.at(j0) == D(m)))
     Z = forall_range(0, m, lambda c: row_x(c) == 0, 'c')
-    vc.cut('a zero row of regressors has zero products', z3.Implies(z3.And(G, Z), forall_range(0, m, lambda c: row_x(c) * bf(c) == 0, 'c')))
-    vc.assume(z3.Implies(z3.And(G, Z), use(stmt_sum_ext(m, lambda c: row_x(c) * bf(c), lambda c: z3.RealVal(0), D, lambda c: z3.RealVal(0)))))
+    vc.assume(z3.Implies(z3.And(G, Z), use(stmt_zero_row(m, row_x, bf, D))))                                      # LemmaZeroRow
     vc.cut('a zero row of regressors contributes nothing', z3.Implies(z3.And(G, Z), D(m) == 0))
     return Z
+
+
+def stmt_zero_row(m, x, b, D):
+    """D = prefix sums of x(c) * b(c), x(c) = 0 on [0,m)  =>  D(m) = 0   (proved: LemmaZeroRow; the product never meets a quantifier elsewhere)"""
+    hyp = z3.And(m >= 0, prefix_def(D, m, lambda c: x(c) * b(c)), forall_range(0, m, lambda c: x(c) == 0, 'c'))
+    return hyp, D(m) == 0
+
+
+class LemmaZeroRow(Contract):
+    """bilinearity of dot, the case used by the corollary: a zero row of regressors has a zero dot product with any coefficient vector"""
+    target = '@verif/lemmas/c17_lemmas.py::lemma_zero_row'
+    prop = 'C17'
+    fin = 5
+
+    def setup(self, vc):
+        m = z3.Int('m')
+        x, b, D = [z3.Function(nm, I, R) for nm in ('x', 'b', 'D')]
+        vc.fin_bounds.append(m)
+        hyp, goal = stmt_zero_row(m, x, b, lambda c: D(c))
+        s = NS(m=m, x=x, b=b, D=D, hyp=hyp, goal=goal)
+        vc._s = s
+        return s, (SInt(m),), {}
+
+    def env(self, vc):
+        s = vc._s
+
+        def inst(j):
+            j = T(j)
+            vc.assume(z3.Implies(z3.And(0 <= j, j < s.m), z3.And(s.D(j + 1) == s.D(j) + s.x(j) * s.b(j), s.x(j) == 0)))
+        return dict(inst=inst)
+
+    def requires(self, s):
+        return [s.hyp]
+
+    loops = {0: Loop(inv=lambda s, l: [z3.And(0 <= T(l.j), T(l.j) <= s.m), s.D(T(l.j)) == 0])}
+
+    def ensures(self, s, result):
+        return [('D(m) = 0', s.goal)]
 
 
 class Adjust1(Contract):
@@ -643,7 +684,7 @@ class AdjustPosterior(Contract):
         outputs.update({nm: SArr.from_fn((lambda r, f=s.th[i]: f(r)), (n,), 'real') for i, nm in enumerate(pnames)})
         sample = sample_stub(outputs, parameter_names=list(pnames))
         model = {nm: make_object('NodeStub', attrs=dict(observed=SArr.from_fn((lambda i, o=s.O[c]: o), (1,), 'real'))) for c, nm in enumerate(snames)}
-        s.pnames = pnames
+        s.pnames, s.snames, s.sample = pnames, snames, sample
         s.adj = s.LA() if self.how == 'instance' else 'linear'
         s.G = z3.BoolVal(True)
         vc._s = s
@@ -681,6 +722,11 @@ class AdjustPosterior(Contract):
                     z3.BoolVal(isinstance(outs, dict) and list(outs) == s.pnames and made[0].kw.get('parameter_names') == s.pnames)))
         if not (isinstance(outs, dict) and list(outs) == s.pnames):
             return out
+        so = s.sample.outputs
+        out.append(("frame: the caller's sample is not modified (same output arrays, same contents)",
+                    z3.And([z3.BoolVal(list(so) == s.snames + s.pnames and _bi.all(isinstance(v, SArr) and v.ndim == 1 for v in so.values()))] +
+                           [z3.And(so[nm].shape[0] == s.n, forall_range(0, s.n, lambda r, c=c, nm=nm: so[nm].at(r) == s.S[c](r), 'r')) for c, nm in enumerate(s.snames) if isinstance(so.get(nm), SArr)] +
+                           [z3.And(so[nm].shape[0] == s.n, forall_range(0, s.n, lambda r, i=i, nm=nm: so[nm].at(r) == s.th[i](r), 'r')) for i, nm in enumerate(s.pnames) if isinstance(so.get(nm), SArr)])))
         j0, m = s.j0, self.M
         inst = s.created[0] if len(s.created) == 1 else None
         X = getattr(inst, '_X', None)
@@ -827,22 +873,135 @@ def _ite_chain(i, vals):
     return r
 
 
-def cm_final_sum_hook(M, positive=True, argsort_ord=0, sum_ord=0):
-    """ghost steps at the final p_models.sum(): unfold the (concrete-length) prefix sum, and show that the smallest draw is counted for
-    some model, so that the normaliser is positive.  Every step is a cut (proved from the library axioms in force, then used)."""
+def weight_term(k, sim, pri):
+    """the property's unnormalised weight: count / n_sim * prior weight (1 when no prior weights are given)"""
+    return z3.ToReal(k) / z3.ToReal(sim) * (pri if pri is not None else 1)
+
+
+def stmt_weight_sign(k, sim, pri, w):
+    """k >= 0, n_sim >= 1, prior > 0, w = k / n_sim * prior  =>  w >= 0, and w > 0 when k >= 1   (proved: LemmaWeightSign)"""
+    hyp = z3.And(k >= 0, sim >= 1, (pri > 0) if pri is not None else z3.BoolVal(True), w == weight_term(k, sim, pri))
+    return hyp, z3.And(w >= 0, z3.Implies(k >= 1, w > 0))
+
+
+def stmt_normalise(ws, Sn, qs):
+    """S = sum w_i != 0, q_i = w_i / S  =>  sum q_i = 1   (proved: LemmaNormalise)"""
+    hyp = z3.And([Sn == _bi.sum(ws[1:], ws[0]), Sn != 0] + [q == w / Sn for q, w in zip(qs, ws)])
+    return hyp, _bi.sum(qs[1:], qs[0]) == 1
+
+
+def stmt_unit_interval(ws, Sn, qs):
+    """w_i >= 0, S = sum w_i > 0, q_i = w_i / S  =>  0 <= q_i <= 1   (proved: LemmaNormalise)"""
+    hyp = z3.And([Sn == _bi.sum(ws[1:], ws[0]), Sn > 0] + [w >= 0 for w in ws] + [q == w / Sn for q, w in zip(qs, ws)])
+    return hyp, z3.And([z3.And(q >= 0, q <= 1) for q in qs])
+
+
+class LemmaWeightSign(Contract):
+    """field arithmetic, isolated from everything else: count / n_sim * prior is non-negative, and positive for a positive count"""
+    target = '@verif/lemmas/c17_lemmas.py::lemma_weight_sign'
+    prop = 'C17'
+    fin = 4
+
+    def __init__(self, priors):
+        self.priors = priors
+        self.label = 'prior-weights' if priors else 'no-priors'
+
+    def setup(self, vc):
+        k, sim = z3.Ints('k n_sim')
+        pri, w = z3.Reals('prior w')
+        vc.fin_bounds.extend([k, sim])
+        hyp, goal = stmt_weight_sign(k, sim, pri if self.priors else None, w)
+        return NS(hyp=hyp, goal=goal), (), {}
+
+    def requires(self, s):
+        return [s.hyp]
+
+    def ensures(self, s, result):
+        return [('w >= 0, and w > 0 when the count is positive', s.goal)]
+
+
+class LemmaNormalise(Contract):
+    """field arithmetic, isolated: the quotients w_i / sum(w) sum to one; they lie in [0, 1] when the weights are non-negative"""
+    target = '@verif/lemmas/c17_lemmas.py::lemma_normalise'
+    prop = 'C17'
+    fin = 4
+
+    def __init__(self, M):
+        self.M = M
+        self.label = '%d-weights' % M
+
+    def setup(self, vc):
+        ws = [z3.Real('w%d' % i) for i in range(self.M)]
+        qs = [z3.Real('q%d' % i) for i in range(self.M)]
+        Sn = z3.Real('S')
+        s = NS(ws=ws, qs=qs, Sn=Sn)
+        return s, (), {}
+
+    def requires(self, s):
+        return [s.Sn == _bi.sum(s.ws[1:], s.ws[0])] + [q == w / s.Sn for q, w in zip(s.qs, s.ws)]
+
+    def ensures(self, s, result):
+        return [('sum != 0: the quotients sum to one', use(stmt_normalise(s.ws, s.Sn, s.qs))),
+                ('non-negative weights with a positive sum: every quotient is in [0, 1]', use(stmt_unit_interval(s.ws, s.Sn, s.qs)))]
+
+
+def cm_final_sum_hook(M, x, store, positive=True, argsort_ord=0, sum_ord=0):
+    """ghost steps at the final p_models.sum().  The nonlinear terms are NAMED by fresh constants (w_i := count_i / n_sim_i * prior_i,
+    S := sum w_i, q_i := w_i / S: definitions of fresh constants, conservative) and every fact about them comes from an isolated field-arithmetic
+    lemma (LemmaWeightSign, LemmaNormalise), so that each step below is linear / congruence reasoning over ground facts of the path condition."""
     def h(vc, rec):
         ps, arr = rec['ps'], rec['arr']
+        ks = [vc.libcalls['np.sum'][sum_ord + i]['mask'].select()[0] for i in range(M)]
+        pri = lambda i: None if x.pri is None else x.pri[i]
+        w = [vc.fresh('w%d' % i, R) for i in range(M)]
+        Sn = vc.fresh('S', R)
+        q = [vc.fresh('q%d' % i, R) for i in range(M)]
+        defs = [w[i] == weight_term(ks[i], x.sims[i], pri(i)) for i in range(M)]
+        for i in range(M):
+            vc.assume(defs[i])                                       # definition of the fresh constant w_i
+        vc.assume(Sn == _bi.sum(w[1:], w[0]))                        # definition of S
+        for i in range(M):
+            vc.assume(q[i] == w[i] / Sn)                             # definition of q_i
+        for i in range(M):
+            vc.cut('slot %d of the weight vector holds w_%d = count_%d / n_sim_%d * prior_%d' % (i, i, i, i, i), arr.at(i) == w[i])
+        vc.cut('the running sum starts at zero', ps(0) == 0)
         for j in range(M):
             vc.cut('unfold the sum of the %d unnormalised weights at %d' % (M, j), ps(j + 1) == ps(j) + arr.at(j))
+        vc.cut('the normaliser computed by the code is S = sum of the w_i', T(rec['res']) == Sn)
+        store.append(NS(w=w, Sn=Sn, q=q, ks=ks, arr=arr, res=T(rec['res'])))
         if not positive:
             return
         p = vc.libcalls['np.argsort'][argsort_ord]
         vc.cut('the first sorted index is a valid position', z3.Implies(p.n >= 1, z3.And(0 <= p.pi(0), p.pi(0) < p.n)))
+        firsts = []
         for i in range(M):
             mk = vc.libcalls['np.sum'][sum_ord + i]['mask']
             k, sel, rank, msk = mk.select()
+            firsts.append((msk.shape[0], msk.at(0)))
             vc.cut('model %d: a counted first draw makes the count positive' % i, z3.And(k >= 0, z3.Implies(z3.And(msk.shape[0] >= 1, msk.at(0)), k >= 1)))
+        vc.cut('the smallest draw belongs to some model and is counted for it', z3.Or([z3.And(n_ >= 1, f_) for n_, f_ in firsts]))
+        vc.cut('some count is positive', z3.Or([k >= 1 for k in ks]))
+        for i in range(M):
+            hyp, goal = stmt_weight_sign(ks[i], x.sims[i], pri(i), w[i])
+            vc.assume(z3.Implies(hyp, goal))                         # LemmaWeightSign
+            vc.cut('w_%d is non-negative, and positive when count_%d is' % (i, i), goal)
+        vc.cut('the normaliser is positive', Sn > 0)
     return h
+
+
+def cm_exit_steps(vc, nm, result, M, positive):
+    """ghost steps at the exit of one compare_models call: the returned probabilities are the named quotients; LemmaNormalise instances"""
+    if not isinstance(result, SArr) or result.ndim != 1:
+        return
+    for i in range(M):
+        vc.cut('probability_%d is the quotient q_%d = w_%d / S' % (i, i, i), result.at(i) == nm.q[i])
+    hyp, goal = stmt_normalise(nm.w, nm.Sn, nm.q)
+    vc.assume(z3.Implies(hyp, goal))                                 # LemmaNormalise
+    vc.cut('the quotients sum to one when S != 0', z3.Implies(nm.Sn != 0, goal))
+    if positive:
+        hyp, goal = stmt_unit_interval(nm.w, nm.Sn, nm.q)
+        vc.assume(z3.Implies(hyp, goal))                             # LemmaNormalise
+        vc.cut('every quotient is in [0, 1]', goal)
 
 
 class CompareModels(Contract):
@@ -867,13 +1026,81 @@ class CompareModels(Contract):
         return cm_pre(s.x, positive=not self.guarded)
 
     def hooks(self, s):
-        return {('np.sum', self.M): cm_final_sum_hook(self.M, positive=not self.guarded)}
+        s.names = []
+        hk = {('np.sum', self.M): cm_final_sum_hook(self.M, s.x, s.names, positive=not self.guarded)}
+        hk[('np.argsort', 0)] = cm_order_hook(s.sp)
+        for i in range(self.M):
+            hk[('np.sum', i)] = cm_count_hook(i, s.sp)
+        return hk
+
+    def lemmas_at_exit(self, s, result):
+        if len(s.names) == 1:
+            cm_exit_steps(cur(), s.names[0], result, self.M, positive=not self.guarded)
+        return []
 
     def ensures(self, s, result):
         return cm_posts(cur(), s.x, s.sp, result, 0, 0, guarded=self.guarded)
 
     def witness(self, vc, model, ob):
         return cm_witness(s_x=None, model=model, M=self.M, priors=self.priors)
+
+
+def cm_order_clauses(p, sp):
+    N, nmin, dcat = sp.N, sp.nmin, sp.dcat
+    return [('the order is taken over the concatenation of the discrepancy vectors, in list order',
+             z3.And(p.n == N, forall_range(0, N, lambda g: p.of.at(g) == dcat(g), 'g'))),
+            ('the n_min counted draws are jointly smallest: no uncounted draw is smaller than a counted one (free choice among ties)',
+             forall2_range(0, N, lambda t, g: z3.Implies(z3.And(t < nmin, p.pinv(g) >= nmin), dcat(p.pi(t)) <= dcat(g))))]
+
+
+def cm_inblock(i, p, sp):
+    return lambda t: z3.And(sp.low[i] <= p.pi(t), p.pi(t) < sp.low[i + 1])
+
+
+def cm_count_clause(i, p, sp, k, sel, rank):
+    inblock, nmin = cm_inblock(i, p, sp), sp.nmin
+    return ('count_%d = |{t < n_min : low_%d <= inds[t] < low_%d + n_%d}|, low_%d = sum of the earlier sample sizes (bijection witness)' % (i, i, i, i, i),
+            z3.And(k >= 0,
+                   forall_range(0, k, lambda j: z3.And(0 <= sel(j), sel(j) < nmin, inblock(sel(j)), rank(sel(j)) == j), 'j'),
+                   forall_range(0, nmin, lambda t: z3.Implies(inblock(t), z3.And(0 <= rank(t), rank(t) < k, sel(rank(t)) == t)), 't')))
+
+
+def cm_order_hook(sp, argsort_ord=0):
+    """ghost steps right at np.argsort (small path condition): the two order clauses of the postcondition, via named intermediate steps"""
+    def h(vc, p):
+        N, nmin, dcat = sp.N, sp.nmin, sp.dcat
+        (n1, f1), (n2, f2) = cm_order_clauses(p, sp)
+        vc.cut('the sorted array has one entry per draw of every model', p.n == N)
+        vc.cut(n1, f1)
+        vc.cut('0 <= n_min <= N', z3.And(0 <= nmin, nmin <= N))
+        V = vc.fresh_fn('joint', I, R)
+        vc.assume(forall_range(0, N, lambda g: V(g) == dcat(g), 'g'))          # definition of a fresh function: V names the joint sample (short terms)
+        vc.cut('the sorted array is the joint sample V', forall_range(0, N, lambda g: p.of.at(g) == V(g), 'g'))
+        vc.cut('a sorted position holds a valid index whose rank is that position',
+               forall_range(0, N, lambda t: z3.And(0 <= p.pi(t), p.pi(t) < N, p.pinv(p.pi(t)) == t), 't'))
+        vc.cut('the order sorts V (rank form)', forall2_range(0, N, lambda i, j: z3.Implies(p.pinv(i) <= p.pinv(j), V(i) <= V(j))))
+        vc.cut('an index ranked below n_min holds a value not above that of an index ranked at or above n_min',
+               forall2_range(0, N, lambda i, j: z3.Implies(z3.And(p.pinv(i) < nmin, p.pinv(j) >= nmin), V(i) <= V(j))))
+        vc.cut('jointly smallest, read on V',
+               forall2_range(0, N, lambda t, g: z3.Implies(z3.And(t < nmin, p.pinv(g) >= nmin), V(p.pi(t)) <= V(g))))
+        vc.cut('V at a sorted position is the joint sample there', forall_range(0, N, lambda t: V(p.pi(t)) == dcat(p.pi(t)), 't'))
+        vc.cut(n2, f2)
+    return h
+
+
+def cm_count_hook(i, sp, argsort_ord=0, nmin_fact=None):
+    """ghost steps right at the i-th mask sum: the count clause of the postcondition, via the pointwise reading of the mask"""
+    def h(vc, rec):
+        p = vc.libcalls['np.argsort'][argsort_ord]
+        k, sel, rank, msk = rec['mask'].select()
+        if nmin_fact is not None:
+            vc.cut('n_min does not depend on the order', nmin_fact)
+        vc.cut('model %d: the mask has one entry per counted draw' % i, z3.And(msk.shape[0] == sp.nmin, k >= 0))
+        vc.cut('model %d: an entry of the mask says whether the sorted draw lies in the block of the model' % i,
+               forall_range(0, sp.nmin, lambda t: msk.at(t) == cm_inblock(i, p, sp)(t), 't'))
+        nm, f = cm_count_clause(i, p, sp, k, sel, rank)
+        vc.cut(nm, f)
+    return h
 
 
 def cm_posts(vc, x, sp, result, argsort_ord, sum_ord, guarded=False):
@@ -883,11 +1110,7 @@ def cm_posts(vc, x, sp, result, argsort_ord, sum_ord, guarded=False):
             len(vc.libcalls.get('np.sum', [])) < sum_ord + M + 1:
         return [('the result is a vector computed from one argsort and one count per model', z3.BoolVal(False))]
     p = vc.libcalls['np.argsort'][argsort_ord]
-    low, N, nmin, dcat = sp.low, sp.N, sp.nmin, sp.dcat
-    out = [('the order is taken over the concatenation of the discrepancy vectors, in list order',
-            z3.And(p.n == N, forall_range(0, N, lambda g: p.of.at(g) == dcat(g), 'g'))),
-           ('the n_min counted draws are jointly smallest: no uncounted draw is smaller than a counted one (free choice among ties)',
-            forall2_range(0, N, lambda t, g: z3.Implies(z3.And(t < nmin, p.pinv(g) >= nmin), dcat(p.pi(t)) <= dcat(g))))]
+    out = cm_order_clauses(p, sp)
     ks = []
     for i in range(M):
         rec = vc.libcalls['np.sum'][sum_ord + i]
@@ -895,12 +1118,8 @@ def cm_posts(vc, x, sp, result, argsort_ord, sum_ord, guarded=False):
             return out + [('count %d is the sum of a boolean mask' % i, z3.BoolVal(False))]
         k, sel, rank, msk = rec['mask'].select()
         ks.append(k)
-        inblock = lambda t, i=i: z3.And(low[i] <= p.pi(t), p.pi(t) < low[i + 1])
-        out.append(('count_%d = |{t < n_min : low_%d <= inds[t] < low_%d + n_%d}|, low_%d = sum of the earlier sample sizes (bijection witness)' % (i, i, i, i, i),
-                    z3.And(k >= 0,
-                           forall_range(0, k, lambda j: z3.And(0 <= sel(j), sel(j) < nmin, inblock(sel(j)), rank(sel(j)) == j), 'j'),
-                           forall_range(0, nmin, lambda t: z3.Implies(inblock(t), z3.And(0 <= rank(t), rank(t) < k, sel(rank(t)) == t)), 't'))))
-    pr = [z3.ToReal(ks[i]) / z3.ToReal(x.sims[i]) * (x.pri[i] if x.pri is not None else 1) for i in range(M)]
+        out.append(cm_count_clause(i, p, sp, k, sel, rank))
+    pr = [weight_term(ks[i], x.sims[i], None if x.pri is None else x.pri[i]) for i in range(M)]
     S = pr[0]
     for q in pr[1:]:
         S = S + q
@@ -949,10 +1168,18 @@ def count_witness(k, sel, rank, nmin, member):
                   forall_range(0, nmin, lambda t: z3.Implies(member(t), z3.And(0 <= rank(t), rank(t) < k, sel(rank(t)) == t)), 't'))
 
 
+def ph_range(n, m, f):
+    return forall_range(0, n, lambda i: z3.And(0 <= f(i), f(i) < m), 'i')
+
+
+def ph_inj(n, f):
+    return forall2_range(0, n, lambda i, j: z3.Implies(i != j, f(i) != f(j)))
+
+
 def pigeonhole(n, m, f):
-    """Lean-certified (lemmas/L1.lean, pigeonhole_range): an injection of [0,n) into [0,m) forces n <= m"""
-    return z3.Implies(z3.And(n >= 0, m >= 0, forall_range(0, n, lambda i: z3.And(0 <= f(i), f(i) < m), 'i'),
-                             forall2_range(0, n, lambda i, j: z3.Implies(i != j, f(i) != f(j)))), n <= m)
+    """Lean-certified (lemmas/L1.lean, pigeonhole_range): an injection of [0,n) into [0,m) forces n <= m.
+    The two quantified hypotheses are built by ph_range / ph_inj: a contract cuts exactly these formulas, so the instance fires propositionally."""
+    return z3.Implies(z3.And(n >= 0, m >= 0, ph_range(n, m, f), ph_inj(n, f)), n <= m)
 
 
 def reindex_pieces(a):
@@ -963,7 +1190,7 @@ def reindex_pieces(a):
             ('phi maps the positions of the model in the second ordering onto its positions in the first', forall_range(0, N, lambda g: a.in2(g) == a.in1(a.phi(g)), 'g'))]
 
 
-def counts_agree_hyps(a):
+def counts_agree_hyps(a, counts=True):
     """a: NS(N, nmin, d1, d2, pi1, pinv1, pi2, pinv2, phi, psi, in1, in2, k1, sel1, rank1, k2, sel2, rank2).
     Two orderings of the same joint sample (d2 = d1 o phi, phi a bijection of [0,N) with inverse psi, mapping the positions of one model's draws in
     the second order onto its positions in the first), each sorted by its own argsort, no tie at the cut of the first."""
@@ -975,29 +1202,83 @@ def counts_agree_hyps(a):
             ('pi2 sorts the second ordering', sorted_by(N, a.pi2, a.d2)),
             ] + reindex_pieces(a)[:2] + [
             ('no tie at the cut', z3.Or(nmin == N, a.d1(a.pi1(nmin - 1)) < a.d1(a.pi1(nmin)))),
-            reindex_pieces(a)[2],
+            reindex_pieces(a)[2]] + ([
             ('k1 counts the chosen draws of the model in the first ordering', count_witness(a.k1, a.sel1, a.rank1, nmin, lambda t: a.in1(a.pi1(t)))),
-            ('k2 counts the chosen draws of the model in the second ordering', count_witness(a.k2, a.sel2, a.rank2, nmin, lambda t: a.in2(a.pi2(t))))]
+            ('k2 counts the chosen draws of the model in the second ordering', count_witness(a.k2, a.sel2, a.rank2, nmin, lambda t: a.in2(a.pi2(t))))] if counts else [])
+
+
+def chosen_claim(a, first_to_second):
+    """chosen in one ordering => chosen in the other:  A: pinv1(g) < nmin => pinv2(psi g) < nmin;  B: pinv2(g) < nmin => pinv1(phi g) < nmin"""
+    here, there, mp = (a.pinv1, a.pinv2, a.psi) if first_to_second else (a.pinv2, a.pinv1, a.phi)
+    return forall_range(0, a.N, lambda g: z3.Not(z3.And(here(g) < a.nmin, there(mp(g)) >= a.nmin)), 'g')
+
+
+CHOSEN_NEEDS = ('1 <= n_min <= N', 'pi1 is a permutation of [0,N)', 'pi1 sorts the first ordering', 'pi2 is a permutation of [0,N)', 'pi2 sorts the second ordering',
+                'phi / psi are mutually inverse bijections of [0,N)', 'the second ordering is the first one re-indexed by phi', 'no tie at the cut')
+COUNT_NEEDS = ('1 <= n_min <= N', 'pi1 is a permutation of [0,N)', 'pi2 is a permutation of [0,N)', 'phi / psi are mutually inverse bijections of [0,N)',
+               'phi maps the positions of the model in the second ordering onto its positions in the first',
+               'k1 counts the chosen draws of the model in the first ordering', 'k2 counts the chosen draws of the model in the second ordering')
+
+
+def stmt_chosen(a, first_to_second):
+    """LemmaChosen: two sorted orderings of one joint sample, no tie at the cut of the first => a draw chosen in one is chosen in the other"""
+    hyps = dict(counts_agree_hyps(a, counts=False))
+    return z3.And([hyps[nm] for nm in CHOSEN_NEEDS]), chosen_claim(a, first_to_second)
 
 
 def stmt_counts_agree(a):
-    return z3.And([f for _, f in counts_agree_hyps(a)]), a.k1 == a.k2
+    """LemmaCountsAgree: the same draws are chosen in both orderings => a model has the same number of chosen draws in both"""
+    hyps = dict(counts_agree_hyps(a))
+    return z3.And([hyps[nm] for nm in COUNT_NEEDS] + [chosen_claim(a, True), chosen_claim(a, False)]), a.k1 == a.k2
+
+
+def abstract_orderings(vc):
+    N, nmin, k1, k2 = z3.Ints('N nmin k1 k2')
+    fI = lambda nm: z3.Function(nm, I, I)
+    a = NS(N=N, nmin=nmin, k1=k1, k2=k2, d1=z3.Function('d1', I, R), d2=z3.Function('d2', I, R), in1=z3.Function('in1', I, B), in2=z3.Function('in2', I, B),
+           pi1=fI('pi1'), pinv1=fI('pinv1'), pi2=fI('pi2'), pinv2=fI('pinv2'), phi=fI('phi'), psi=fI('psi'),
+           sel1=fI('sel1'), rank1=fI('rank1'), sel2=fI('sel2'), rank2=fI('rank2'))
+    vc.fin_bounds.extend([N, nmin, k1, k2])
+    return a
+
+
+class LemmaChosen(Contract):
+    """with no tie at the cut, the n_min jointly smallest draws are the same draws whatever the order of the model list (two pigeonhole instances)"""
+    target = '@verif/lemmas/c17_lemmas.py::lemma_chosen_stays_chosen'
+    prop = 'C17'
+    fin = 3
+    fin_range = 4
+
+    def __init__(self, first_to_second):
+        self.dir = first_to_second
+        self.label = 'first-to-second' if first_to_second else 'second-to-first'
+
+    def setup(self, vc):
+        a = abstract_orderings(vc)
+        hyp, goal = stmt_chosen(a, self.dir)
+        s = NS(a=a, hyp=hyp, goal=goal)
+        vc._s = s
+        return s, (self.dir,), {}
+
+    def requires(self, s):
+        return [s.hyp]
+
+    def env(self, vc):
+        return LemmaCountsAgree.env(self, vc)
+
+    def ensures(self, s, result):
+        return [('chosen in one ordering => chosen in the other (%s)' % self.label, s.goal)]
 
 
 class LemmaCountsAgree(Contract):
-    """with no tie at the cut the number of a model's draws among the n_min jointly smallest does not depend on the order of the model list"""
+    """when the same draws are chosen in both orderings (LemmaChosen), a model has the same number of chosen draws in both (two pigeonhole instances)"""
     target = '@verif/lemmas/c17_lemmas.py::lemma_counts_agree'
     prop = 'C17'
     fin = 3
     fin_range = 4
 
     def setup(self, vc):
-        N, nmin, k1, k2 = z3.Ints('N nmin k1 k2')
-        fI = lambda nm: z3.Function(nm, I, I)
-        a = NS(N=N, nmin=nmin, k1=k1, k2=k2, d1=z3.Function('d1', I, R), d2=z3.Function('d2', I, R), in1=z3.Function('in1', I, B), in2=z3.Function('in2', I, B),
-               pi1=fI('pi1'), pinv1=fI('pinv1'), pi2=fI('pi2'), pinv2=fI('pinv2'), phi=fI('phi'), psi=fI('psi'),
-               sel1=fI('sel1'), rank1=fI('rank1'), sel2=fI('sel2'), rank2=fI('rank2'))
-        vc.fin_bounds.extend([N, nmin, k1, k2])
+        a = abstract_orderings(vc)
         hyp, goal = stmt_counts_agree(a)
         s = NS(a=a, hyp=hyp, goal=goal)
         vc._s = s
@@ -1020,7 +1301,7 @@ class LemmaCountsAgree(Contract):
             else:
                 here, there, mp = a.pinv2, a.pinv1, a.phi
             bad = lambda g: z3.And(here(g) < nmin, there(mp(g)) >= nmin)
-            claim = forall_range(0, N, lambda g: z3.Not(bad(g)), 'g')
+            claim = chosen_claim(a, first_to_second)
             vc.assume(z3.Implies(exists_range(0, N, bad, 'g'), z3.And(0 <= g0, g0 < N, bad(g0))))       # Skolem definition of the fresh constant g0
             Bd = z3.And(0 <= g0, g0 < N, bad(g0))
             vc.cut('a counterexample needs a proper cut', z3.Implies(Bd, z3.And(nmin < N, tau < a.d1(a.pi1(nmin)))))
@@ -1030,22 +1311,30 @@ class LemmaCountsAgree(Contract):
                 vc.cut('A1: the counterexample is not above the cut value', z3.Implies(Bd, z3.And(a.d1(g0) <= tau, a.d2(a.pi2(t0)) == a.d1(g0), 0 <= t0, t0 < N)))
                 vc.cut('A2: everything sorted before it in the second ordering is not above the cut value',
                        z3.Implies(Bd, forall_range(0, t0 + 1, lambda t: a.d2(a.pi2(t)) <= tau, 't')))
-                vc.cut('A3: ... hence chosen in the first ordering', z3.Implies(Bd, forall_range(0, t0 + 1, lambda t: z3.And(0 <= f(t), f(t) < nmin), 't')))
                 vc.cut('A3a: the maps involved undo each other there',
                        z3.Implies(Bd, forall_range(0, t0 + 1, lambda t: z3.And(0 <= a.pi2(t), a.pi2(t) < N, a.pinv2(a.pi2(t)) == t, 0 <= a.phi(a.pi2(t)), a.phi(a.pi2(t)) < N,
-                                                                               a.psi(a.phi(a.pi2(t))) == a.pi2(t), a.pi1(f(t)) == a.phi(a.pi2(t))), 't')))
-                vc.cut('A4: injectively', z3.Implies(Bd, forall2_range(0, t0 + 1, lambda i, j: z3.Implies(i != j, f(i) != f(j)))))
+                                                                               a.psi(a.phi(a.pi2(t))) == a.pi2(t), a.pi1(f(t)) == a.phi(a.pi2(t)), 0 <= f(t), f(t) < N), 't')))
+                vc.cut('A3b: ... and the draw keeps its value', z3.Implies(Bd, forall_range(0, t0 + 1, lambda t: a.d1(a.pi1(f(t))) == a.d2(a.pi2(t)), 't')))
+                vc.cut('A3c: everything sorted at or after the cut of the first ordering is above the cut value',
+                       z3.Implies(Bd, forall_range(nmin, N, lambda u: tau < a.d1(a.pi1(u)), 'u')))
+                vc.cut('A3: ... hence chosen in the first ordering', z3.Implies(Bd, ph_range(t0 + 1, nmin, f)))
+                vc.cut('A4: injectively', z3.Implies(Bd, ph_inj(t0 + 1, f)))
+                vc.cut('A5: sizes', z3.Implies(Bd, z3.And(t0 + 1 >= 0, nmin >= 0)))
                 vc.assume(z3.Implies(Bd, pigeonhole(t0 + 1, nmin, f)))
             else:
                 t0 = a.pinv2(g0)
                 f = lambda t: a.pinv2(a.psi(a.pi1(t)))
                 vc.cut('B1: the counterexample is above the cut value', z3.Implies(Bd, z3.And(a.d2(g0) > tau, a.d2(a.pi2(t0)) == a.d2(g0), 0 <= t0, t0 < nmin)))
-                vc.cut('B2: every draw chosen in the first ordering is sorted before it in the second',
-                       z3.Implies(Bd, forall_range(0, nmin, lambda t: z3.And(0 <= f(t), f(t) < t0), 't')))
                 vc.cut('B3a: the maps involved undo each other there',
                        z3.Implies(Bd, forall_range(0, nmin, lambda t: z3.And(0 <= a.pi1(t), a.pi1(t) < N, a.pinv1(a.pi1(t)) == t, 0 <= a.psi(a.pi1(t)), a.psi(a.pi1(t)) < N,
-                                                                             a.phi(a.psi(a.pi1(t))) == a.pi1(t), a.pi2(f(t)) == a.psi(a.pi1(t))), 't')))
-                vc.cut('B4: injectively', z3.Implies(Bd, forall2_range(0, nmin, lambda i, j: z3.Implies(i != j, f(i) != f(j)))))
+                                                                             a.phi(a.psi(a.pi1(t))) == a.pi1(t), a.pi2(f(t)) == a.psi(a.pi1(t)), 0 <= f(t), f(t) < N), 't')))
+                vc.cut('B2a: a draw chosen in the first ordering is not above the cut value', z3.Implies(Bd, forall_range(0, nmin, lambda t: a.d1(a.pi1(t)) <= tau, 't')))
+                vc.cut('B2b: ... and keeps its value in the second ordering', z3.Implies(Bd, forall_range(0, nmin, lambda t: a.d2(a.pi2(f(t))) == a.d1(a.pi1(t)), 't')))
+                vc.cut('B2c: everything sorted at or after the counterexample in the second ordering is above the cut value',
+                       z3.Implies(Bd, forall_range(t0, N, lambda u: tau < a.d2(a.pi2(u)), 'u')))
+                vc.cut('B2: every draw chosen in the first ordering is sorted before it in the second', z3.Implies(Bd, ph_range(nmin, t0, f)))
+                vc.cut('B4: injectively', z3.Implies(Bd, ph_inj(nmin, f)))
+                vc.cut('B5: sizes', z3.Implies(Bd, z3.And(nmin >= 0, t0 >= 0)))
                 vc.assume(z3.Implies(Bd, pigeonhole(nmin, t0, f)))
             vc.cut('there is no counterexample', z3.Not(Bd))
             vc.cut('chosen in one ordering <=> chosen in the other (this direction)', claim)
@@ -1062,17 +1351,102 @@ class LemmaCountsAgree(Contract):
             h = lambda u: pinv_o(go(u))              # its sorted position there
             f = lambda u: rk(h(u))                   # its rank among the draws counted there
             vc.cut('C0a: a counted draw is a chosen draw of the model', forall_range(0, k, lambda u: z3.And(0 <= g(u), g(u) < N, pinv(g(u)) == sel(u), pinv(g(u)) < nmin, inn(g(u))), 'u'))
-            vc.cut('C0b: it is a draw of the same model in the other ordering, chosen there as well',
-                   forall_range(0, k, lambda u: z3.And(0 <= go(u), go(u) < N, unmp(go(u)) == g(u), in_o(go(u)), 0 <= h(u), h(u) < nmin, pi_o(h(u)) == go(u)), 'u'))
-            vc.cut('C1: ... hence counted there', forall_range(0, k, lambda u: z3.And(0 <= f(u), f(u) < kk, back(f(u)) == h(u)), 'u'))
+            vc.cut('C0b: it is a draw of the same model in the other ordering',
+                   forall_range(0, k, lambda u: z3.And(0 <= go(u), go(u) < N, unmp(go(u)) == g(u), in_o(go(u))), 'u'))
+            vc.cut('C0c: ... chosen there as well', forall_range(0, k, lambda u: z3.And(0 <= h(u), h(u) < nmin, pi_o(h(u)) == go(u)), 'u'))
+            vc.cut('C1a: ... hence counted there', forall_range(0, k, lambda u: back(f(u)) == h(u), 'u'))
+            vc.cut('C1: its rank there is a valid rank', ph_range(k, kk, f))
             vc.cut('C2: distinct counted draws have distinct positions in the other ordering', forall2_range(0, k, lambda i, j: z3.Implies(h(i) == h(j), sel(i) == sel(j))))
-            vc.cut('C3: ... and distinct ranks', forall2_range(0, k, lambda i, j: z3.Implies(i != j, f(i) != f(j))))
+            vc.cut('C3: ... and distinct ranks', ph_inj(k, f))
+            vc.cut('C4: sizes', z3.And(k >= 0, kk >= 0))
             vc.assume(pigeonhole(k, kk, f))
             vc.cut('count inequality', k <= kk)
         return dict(chosen_stays_chosen=chosen_stays_chosen, count_le=count_le)
 
     def ensures(self, s, result):
         return [('k1 = k2', s.goal)]
+
+
+def reindex_maps(perm, sp, sp2):
+    """phi: position in the permuted concatenation -> position of the same draw in the original one; psi its inverse; block predicates"""
+    M = len(perm)
+    inv = [perm.index(i) for i in range(M)]
+
+    def phi(g):
+        r = g - sp2.low[M - 1] + sp.low[perm[M - 1]]
+        for j in reversed(range(M - 1)):
+            r = z3.If(g < sp2.low[j + 1], g - sp2.low[j] + sp.low[perm[j]], r)
+        return r
+
+    def psi(g):
+        r = g - sp.low[M - 1] + sp2.low[inv[M - 1]]
+        for i in reversed(range(M - 1)):
+            r = z3.If(g < sp.low[i + 1], g - sp.low[i] + sp2.low[inv[i]], r)
+        return r
+    in1 = [(lambda g, i=i: z3.And(sp.low[i] <= g, g < sp.low[i + 1])) for i in range(M)]
+    in2 = [(lambda g, j=j: z3.And(sp2.low[j] <= g, g < sp2.low[j + 1])) for j in range(M)]
+    return phi, psi, in1, in2
+
+
+def reindex_facts(perm, x, sp, sp2):
+    """the facts about the block re-indexing that LemmaCountsAgree needs (sizes only): named formulas"""
+    M = len(perm)
+    phi, psi, in1, in2 = reindex_maps(perm, sp, sp2)
+    out = [('n_min and the total size do not depend on the order', z3.And(sp2.N == sp.N, sp2.nmin == sp.nmin, 1 <= sp.nmin, sp.nmin <= sp.N))]
+    for j in range(M):
+        a = NS(N=sp.N, d1=sp.dcat, d2=sp2.dcat, phi=phi, psi=psi, in1=in1[perm[j]], in2=in2[j])
+        for nm, f in (reindex_pieces(a) if j == 0 else reindex_pieces(a)[2:]):
+            out.append(('model %d of the permuted list: %s' % (j, nm), f))
+    return out
+
+
+def permuted_inputs(x, perm):
+    return NS(M=x.M, ns=[x.ns[j] for j in perm], sims=[x.sims[j] for j in perm], dv=[x.dv[j] for j in perm], objs=[x.objs[j] for j in perm],
+              pri=None if x.pri is None else [x.pri[j] for j in perm])
+
+
+class LemmaReindex(Contract):
+    """the block re-indexing between the concatenation of a model list and of the permuted list: mutually inverse bijections of [0,N) that carry
+    each model's block onto its block and each draw onto itself (pure integer arithmetic on the sample sizes; isolated from the calls)"""
+    target = '@verif/lemmas/c17_lemmas.py::lemma_reindexing'
+    prop = 'C17'
+    fin = 3
+
+    def __init__(self, perm):
+        self.perm = tuple(perm)
+        self.M = len(perm)
+        self.label = 'order-%s' % ''.join(str(j) for j in perm)
+        self.fin_range = 3 * self.M + 1
+
+    def setup(self, vc):
+        x = cm_inputs(vc, self.M, False)
+        vc.fin_bounds.extend(x.ns)
+        s = NS(x=x, x2=permuted_inputs(x, self.perm))
+        s.sp, s.sp2 = cm_spec(x), cm_spec(s.x2)
+        vc._s = s
+        return s, (), {}
+
+    def requires(self, s):
+        return [z3.And([n >= 1 for n in s.x.ns])]
+
+    def env(self, vc):
+        def blocks():
+            """ghost: block by block first (simple case analyses), so that the whole-range facts are one instantiation away"""
+            s = vc._s
+            M, perm = self.M, self.perm
+            sp, sp2 = s.sp, s.sp2
+            phi, psi, in1, in2 = reindex_maps(perm, sp, sp2)
+            for j in range(M):
+                i = perm[j]
+                vc.cut('block %d of the permuted concatenation is block %d of the original one' % (j, i),
+                       forall_range(sp2.low[j], sp2.low[j + 1], lambda g: z3.And(phi(g) == g - sp2.low[j] + sp.low[i], psi(phi(g)) == g,
+                                                                                 sp2.dcat(g) == s.x.dv[i](g - sp2.low[j]), sp.dcat(phi(g)) == s.x.dv[i](g - sp2.low[j])), 'g'))
+                vc.cut('block %d of the original concatenation is block %d of the permuted one' % (i, j),
+                       forall_range(sp.low[i], sp.low[i + 1], lambda g: z3.And(psi(g) == g - sp.low[i] + sp2.low[j], phi(psi(g)) == g), 'g'))
+        return {'blocks': blocks}
+
+    def ensures(self, s, result):
+        return reindex_facts(self.perm, s.x, s.sp, s.sp2)
 
 
 class PermutedModels(Contract):
@@ -1093,59 +1467,44 @@ class PermutedModels(Contract):
         M, perm = self.M, self.perm
         x = cm_inputs(vc, M, self.priors)
         vc.fin_bounds.extend(x.ns + x.sims)
-        x2 = NS(M=M, ns=[x.ns[j] for j in perm], sims=[x.sims[j] for j in perm], dv=[x.dv[j] for j in perm], objs=[x.objs[j] for j in perm],
-                pri=None if x.pri is None else [x.pri[j] for j in perm])
+        x2 = permuted_inputs(x, perm)
         s = NS(x=x, x2=x2, sp=cm_spec(x), sp2=cm_spec(x2))
         vc._s = s
         return s, (list(x.objs), cm_priors_arg(x), list(x2.objs), cm_priors_arg(x2)), {}
 
-    def _maps(self, s):
-        M, perm = self.M, self.perm
-        inv = [perm.index(i) for i in range(M)]
-        sp, sp2 = s.sp, s.sp2
-
-        def phi(g):          # position in concatenation 2 -> position of the same draw in concatenation 1
-            r = g - sp2.low[M - 1] + sp.low[perm[M - 1]]
-            for j in reversed(range(M - 1)):
-                r = z3.If(g < sp2.low[j + 1], g - sp2.low[j] + sp.low[perm[j]], r)
-            return r
-
-        def psi(g):
-            r = g - sp.low[M - 1] + sp2.low[inv[M - 1]]
-            for i in reversed(range(M - 1)):
-                r = z3.If(g < sp.low[i + 1], g - sp.low[i] + sp2.low[inv[i]], r)
-            return r
-        in1 = [(lambda g, i=i: z3.And(sp.low[i] <= g, g < sp.low[i + 1])) for i in range(M)]
-        in2 = [(lambda g, j=j: z3.And(sp2.low[j] <= g, g < sp2.low[j + 1])) for j in range(M)]
-        return phi, psi, in1, in2
-
     def env(self, vc):
-        def reindexing():
-            """ghost: facts about the block re-indexing phi / psi; they depend on the sample sizes only and are cut BEFORE the calls"""
-            s = vc._s
-            M, perm = self.M, self.perm
-            sp, sp2 = s.sp, s.sp2
-            phi, psi, in1, in2 = self._maps(s)
-            vc.cut('n_min and the total size do not depend on the order', z3.And(sp2.N == sp.N, sp2.nmin == sp.nmin, 1 <= sp.nmin, sp.nmin <= sp.N))
-            for j in range(M):
-                i = perm[j]
-                vc.cut('block %d of the permuted concatenation is block %d of the original one' % (j, i),
-                       forall_range(sp2.low[j], sp2.low[j + 1], lambda g: z3.And(phi(g) == g - sp2.low[j] + sp.low[i], psi(phi(g)) == g,
-                                                                                 sp2.dcat(g) == s.x.dv[i](g - sp2.low[j]), sp.dcat(phi(g)) == s.x.dv[i](g - sp2.low[j])), 'g'))
-                vc.cut('block %d of the original concatenation is block %d of the permuted one' % (i, j),
-                       forall_range(sp.low[i], sp.low[i + 1], lambda g: z3.And(psi(g) == g - sp.low[i] + sp2.low[j], phi(psi(g)) == g), 'g'))
-            for j in range(M):
-                a = NS(N=sp.N, d1=sp.dcat, d2=sp2.dcat, phi=phi, psi=psi, in1=in1[perm[j]], in2=in2[j])
-                for nm, f in (reindex_pieces(a) if j == 0 else reindex_pieces(a)[2:]):
-                    vc.cut('model %d of the permuted list: %s' % (j, nm), f)
-        return {'compare_models': inline(vc, MS + 'compare_models'), 'reindexing': reindexing}
+        return {'compare_models': inline(vc, MS + 'compare_models')}
 
     def requires(self, s):
         return cm_pre(s.x)
 
     def hooks(self, s):
-        M = self.M
-        return {('np.sum', M): cm_final_sum_hook(M, True, 0, 0), ('np.sum', 2 * M + 1): cm_final_sum_hook(M, True, 1, M + 1)}
+        """ghost steps anchored at the library calls: the count of every model right where it is computed (small path condition),
+        the naming of weights / normaliser / quotients at the two final sums"""
+        M, perm = self.M, self.perm
+        s.names, s.count_cut = [], {}
+        sp, sp2 = s.sp, s.sp2
+        phi, psi, in1, in2 = reindex_maps(perm, sp, sp2)
+
+        def at_count(call, idx):
+            def h(vc, rec):
+                p = vc.libcalls['np.argsort'][call]
+                k, sel, rank, msk = rec['mask'].select()
+                if call == 1 and idx == 0:
+                    vc.cut('n_min does not depend on the order', sp2.nmin == sp.nmin)
+                vc.cut('call %d, model %d: the mask has one entry per counted draw' % (call + 1, idx), z3.And(msk.shape[0] == sp.nmin, k >= 0))
+                member = (lambda t: in1[idx](p.pi(t))) if call == 0 else (lambda t: in2[idx](p.pi(t)))
+                vc.cut('call %d, model %d: an entry of the mask says whether the sorted draw belongs to the model' % (call + 1, idx),
+                       forall_range(0, sp.nmin, lambda t: msk.at(t) == member(t), 't'))
+                f = count_witness(k, sel, rank, sp.nmin, member)
+                vc.cut('call %d, model %d: the count is the number of its draws among the n_min smallest (bijection witness)' % (call + 1, idx), f)
+                s.count_cut[(call, idx)] = f
+            return h
+        hk = {('np.sum', M): cm_final_sum_hook(M, s.x, s.names, True, 0, 0), ('np.sum', 2 * M + 1): cm_final_sum_hook(M, s.x2, s.names, True, 1, M + 1)}
+        for i in range(M):
+            hk[('np.sum', i)] = at_count(0, i)
+            hk[('np.sum', M + 1 + i)] = at_count(1, i)
+        return hk
 
     def lemmas_at_exit(self, s, result):
         vc = cur()
@@ -1155,10 +1514,13 @@ class PermutedModels(Contract):
         p1, p2 = vc.libcalls['np.argsort']
         sp, sp2 = s.sp, s.sp2
         N, nmin = sp.N, sp.nmin
-        phi, psi, in1, in2 = self._maps(s)
+        phi, psi, in1, in2 = reindex_maps(perm, sp, sp2)
         vc.cut('call 1 sorts the concatenation in list order', z3.And(p1.n == N, forall_range(0, N, lambda g: p1.of.at(g) == sp.dcat(g), 'g')))
+        vc.cut('the total size does not depend on the order', sp2.N == N)
         vc.cut('call 2 sorts the concatenation in the permuted order', z3.And(p2.n == N, forall_range(0, N, lambda g: p2.of.at(g) == sp2.dcat(g), 'g')))
         s.H = z3.Or(nmin == N, sp.dcat(p1.pi(nmin - 1)) < sp.dcat(p1.pi(nmin)))
+        # facts about the block re-indexing between the two concatenations: they depend on the sample sizes only (proved: LemmaReindex)
+        vc.assume(z3.Implies(z3.And([n >= 1 for n in s.x.ns]), z3.And([f for _, f in reindex_facts(perm, s.x, sp, sp2)])))
         early = {nm for nm, _ in reindex_pieces(NS(N=N, d1=sp.dcat, d2=sp2.dcat, phi=phi, psi=psi, in1=in1[0], in2=in2[0]))}
         for j in range(M):
             i = perm[j]
@@ -1168,13 +1530,30 @@ class PermutedModels(Contract):
                    in1=in1[i], in2=in2[j], k1=k1, sel1=sel1, rank1=rank1, k2=k2, sel2=sel2, rank2=rank2)
             for nm, f in counts_agree_hyps(a):
                 if nm == 'no tie at the cut' or nm in early:
-                    continue                       # the re-indexing facts were cut by reindexing() before the calls
+                    continue                       # the re-indexing facts come from LemmaReindex
                 if j > 0 and not (nm.startswith('k1 ') or nm.startswith('k2 ')):
                     continue                       # the order facts were cut for j = 0 (same formulas)
+                done = s.count_cut.get((0, i) if nm.startswith('k1 ') else (1, j)) if nm.startswith(('k1 ', 'k2 ')) else None
+                if done is not None and done.eq(f):
+                    continue                       # cut at the library call that computed the count
                 vc.cut('model %d of the permuted list: %s' % (j, nm), f)
+            if j == 0:
+                for d in (True, False):
+                    hyp, goal = stmt_chosen(a, d)
+                    vc.assume(z3.Implies(hyp, goal))     # proved by LemmaChosen
+                    vc.cut('no tie at the cut: a draw chosen in one call is chosen in the other (%s)' % ('1 -> 2' if d else '2 -> 1'), z3.Implies(s.H, goal))
             hyp, goal = stmt_counts_agree(a)
             vc.assume(z3.Implies(hyp, goal))         # proved by LemmaCountsAgree
             vc.cut('model %d of the permuted list is counted as model %d of the original list' % (j, i), z3.Implies(s.H, k1 == k2))
+        if len(s.names) == 2 and isinstance(result, tuple) and len(result) == 2:
+            n1, n2 = s.names
+            cm_exit_steps(vc, n1, result[0], M, True)
+            cm_exit_steps(vc, n2, result[1], M, True)
+            for j in range(M):
+                vc.cut('model %d of the permuted list has the weight of model %d of the original list' % (j, perm[j]), z3.Implies(s.H, n2.w[j] == n1.w[perm[j]]))
+            vc.cut('the normaliser does not depend on the order', z3.Implies(s.H, n2.Sn == n1.Sn))
+            for j in range(M):
+                vc.cut('model %d of the permuted list has the quotient of model %d of the original list' % (j, perm[j]), z3.Implies(s.H, n2.q[j] == n1.q[perm[j]]))
         return []
 
     def ensures(self, s, result):
@@ -1491,7 +1870,7 @@ class CompareModelsAnyM(Contract):
 
 CONTRACTS = [InputVariables(1), InputVariables(3), GetFinite(1), GetFinite(2), Pairs(2), Fit(1, True), Fit(2, False), Fit(1, False, refit=True),
              Adjust1(), Adjust(2), AdjustPosterior(1, 'linear'), AdjustPosterior(2, 'instance'),
-             LemmaSumExt(), LemmaSignCancels(), LemmaScaleSum(), LemmaMonotoneCum(), CompareModelsAnyM(False), CompareModelsAnyM(True), LemmaCountsAgree(), PermutedModels((1, 0), True), PermutedModels((1, 0, 2), True), PermutedModels((0, 2, 1), False),
+             LemmaSumExt(), LemmaZeroRow(), LemmaSignCancels(), LemmaScaleSum(), LemmaMonotoneCum(), LemmaWeightSign(True), LemmaWeightSign(False), LemmaNormalise(2), LemmaNormalise(3), CompareModelsAnyM(False), CompareModelsAnyM(True), LemmaChosen(True), LemmaChosen(False), LemmaCountsAgree(), LemmaReindex((1, 0)), LemmaReindex((1, 0, 2)), LemmaReindex((0, 2, 1)), PermutedModels((1, 0), True), PermutedModels((1, 0, 2), True), PermutedModels((0, 2, 1), False),
              CompareModels(2, False), CompareModels(2, True), CompareModels(3, False), CompareModels(3, True), CompareModels(3, True, guarded=True)]
 TRUSTED_BASE = ['sklearn.linear_model.LinearRegression (assumed library, recording stub): fit(X, y) returns the object itself and sets coef_ to the '
                 'least-squares slope of y on X with an intercept, one entry per column (sanity-tested against numpy.linalg.lstsq each run, '
